@@ -17,6 +17,8 @@ import TrompModel.Gen.Cxx.HandleCoThrow
 import TrompModel.Gen.Cxx.CoBody
 import TrompModel.Model.Coro
 import TrompModel.Tie.Base
+import TrompModel.Gen.Cxx.YieldExprExpr
+import TrompModel.Gen.Cxx.CoThrowHandlerCall
 
 namespace Tromp.Tie
 open Tromp.Coro
@@ -150,5 +152,11 @@ theorem registered_eq_ofClauses (cs : List Clause) (eager : Bool) (x : Coro.Exp)
     cases hx
     exact registered_tie cs r hr
   · cases hx
+
+/-- a CO_YIELD clause is its expression applied to the call's parameters (evaluated when the coroutine body reaches it,
+    `co_body_tie`), and a CO_THROW clause evaluates its functor — whose body is the `throw` — once in the place of the
+    completion value. -/
+theorem yield_and_throw_clauses (v : Nat) :
+    Cxx.yield_expr_expr v = v ∧ Cxx.co_throw_handler_call = ["h(p)", "return default_return<promise_value_type>()"] := ⟨rfl, rfl⟩
 
 end Tromp.Tie
